@@ -255,7 +255,7 @@ func genInbound(r *simrt.RNG, sc *Scenario, faulty bool, frameGen func(r *simrt.
 		}
 		sort.Ints(pts)
 		for _, p := range pts {
-			sc.Arrivals = append(sc.Arrivals, Arrival{Upto: p, DelayUS: r.Pick(1, 1, 1) * []int{0, 200, 50000}[r.Intn(3)]})
+			sc.Arrivals = append(sc.Arrivals, Arrival{Upto: p, DelayUS: []int{0, 200, 50000, 2000000, 11000000, 45000000}[r.Pick(30, 25, 20, 10, 10, 5)]})
 		}
 		sc.Arrivals = append(sc.Arrivals, Arrival{Upto: wire, DelayUS: r.Intn(1000)})
 	}
@@ -300,6 +300,13 @@ func genInbound(r *simrt.RNG, sc *Scenario, faulty bool, frameGen func(r *simrt.
 		sc.Consumer.StopAfterError = true
 	case 4:
 		sc.Consumer.StopAfter = 1 + r.Intn(len(sc.Frames)+1)
+	}
+	if r.Chance(0.15) {
+		// the application is busy for up to a minute of simulated time once or twice
+		k := 1 + r.Intn(2)
+		for i := 0; i < k; i++ {
+			sc.Consumer.Sleeps = append(sc.Consumer.Sleeps, [2]int{r.Intn(len(sc.Frames) + 1), []int{5, 500, 9000, 11000, 30000, 60000}[r.Intn(6)]})
+		}
 	}
 	if r.Chance(0.3) {
 		sc.ParserDelay = []int{1, 5, 20, 50}[r.Intn(4)]
@@ -408,9 +415,41 @@ func genProducers(r *simrt.RNG, sc *Scenario, maxProd, maxMsgs int) {
 	}
 }
 
+// genMarathon: a long history - more messages than a 16-bit counter can count - of minimal
+// messages from 1-3 producers, with the peer stalling briefly a few times shortly before and
+// after message 65536 so that a backlog exists when sequence numbers of any width up to 16 bits
+// wrap.
+func genMarathon(r *simrt.RNG, sc *Scenario) {
+	sc.Class = "marathon"
+	np := 1 + r.Intn(3)
+	total := 66000 + r.Intn(4000)
+	xid := uint32(0x5000)
+	for p := 0; p < np; p++ {
+		var pr Producer
+		n := total / np
+		for i := 0; i < n; i++ {
+			pr.Msgs = append(pr.Msgs, OutMsg{Kind: "raw", Size: 8, Xid: xid, Seed: uint64(xid)})
+			xid++
+		}
+		sc.Producers = append(sc.Producers, pr)
+	}
+	sc.WriteStalls = make([]int, total+1)
+	for i := 0; i < 6; i++ {
+		sc.WriteStalls[65536-200+r.Intn(400)] = []int{100, 10000, 1000000}[r.Intn(3)]
+	}
+	for i := 0; i < 4; i++ {
+		sc.WriteStalls[r.Intn(total)] = []int{100, 10000}[r.Intn(2)]
+	}
+}
+
 func genC11(seed uint64) *Scenario {
 	r := simrt.NewRNG(seed)
 	sc := &Scenario{Property: "C11", RunSeed: seed, Class: "fault-free"}
+	if r.Chance(1.0 / 800) {
+		genMarathon(r, sc)
+		sc.Strategy = genStrategy(r, 800000)
+		return sc
+	}
 	genProducers(r, sc, 16, 100)
 	if len(sc.WriteStalls) > 0 {
 		sc.Class = "faulty"
@@ -445,6 +484,17 @@ func genC11(seed uint64) *Scenario {
 	}
 	if r.Chance(0.15) {
 		sc.StepCost = []int{1, 100, 10000}[r.Intn(3)]
+	}
+	// in a few runs the application requests a shutdown while producers are still submitting:
+	// completeness is not judged then (the library discards by design), but what does reach the
+	// wire must still be whole frames, each once, in every producer's order
+	if r.Chance(0.05) {
+		tot := 0
+		for _, p := range sc.Producers {
+			tot += len(p.Msgs)
+		}
+		sc.ShutdownAfter = 1 + r.Intn(10+6*tot)
+		sc.Class = "faulty"
 	}
 	sc.Strategy = genStrategy(r, horizonOf(sc))
 	return sc
